@@ -13,11 +13,15 @@ Layers1 == {[c |-> "A", n |-> n, s |-> "1"] : n \in SizeNames}
            \cup {[c |-> "AE", n |-> n, s |-> "1"] : n \in {"L-2", "L", "4L"}}
            \cup {[c |-> "IE", n |-> n, s |-> "1"] : n \in {"L-2", "L", "4L"}}
 Patterns == {[hs |-> h[1], hk |-> h[2], ks |-> ks, layers |-> ls] :
-               h \in {<<"0", "std">>} \cup ({"1", "L-1", "L", "4L"} \X {"std", "aot"}) \cup ({"1", "H", "L-1"} \X {"chain"}), ks \in {"1", "L-1", "L"},
+               h \in {<<"0", "std">>} \cup ({"1", "L-1", "L", "4L"} \X {"std", "aot"}) \cup ({"1", "H", "L-1"} \X {"chain"})
+                     \cup ({"2", "H"} \X {"stairs"}), ks \in {"1", "L-1", "L"},
                ls \in {<<>>} \cup {<<a>> : a \in Layers1} \cup {<<a, b>> : a, b \in Layers1}}
 
 \* hk = "chain": the headers [[k]], [[k.k]], ... up to hs keys - an array and a table per key
-HS(p, L) == IF p.hs = "0" THEN 0 ELSE IF p.hk = "chain" THEN 2 * Size(p.hs, L) ELSE Size(p.hs, L)
+\* hk = "stairs": hs headers, each extending the path of the one before by L - 20 new keys (every header path but
+\* the first is longer than the limit allows: the document must be refused however the levels are counted)
+HS(p, L) == IF p.hs = "0" THEN 0 ELSE IF p.hk = "chain" THEN 2 * Size(p.hs, L)
+            ELSE IF p.hk = "stairs" THEN Size(p.hs, L) * (L - 20) ELSE Size(p.hs, L)
 RECURSIVE LayerDepth(_, _)
 LayerDepth(ls, L) == IF ls = <<>> THEN 0
                      \* (the empty sibling at the innermost level sits beside the scalar: same number of levels above it;
@@ -34,7 +38,18 @@ Bound(L) == 4 * L
 Single(p) == \/ (p.layers = <<>>)
              \/ (p.hs = "0" /\ p.ks = "1" /\ Len(p.layers) = 1 /\ (p.layers[1].c \in {"A", "AE"} \/ p.layers[1].s = "1"))
 Below(nm) == nm \in {"0", "1", "2", "H", "L-2", "L-1"}
-MustAccept(p) == /\ Single(p) /\ Below(p.hs) /\ Below(p.ks) /\ (p.hk = "chain" => p.hs \in {"1", "H"})
+\* levels the value of the pair nests (what the parser's counter sees: an empty sibling costs one more level)
+RECURSIVE ValueNest(_, _)
+ValueNest(ls, L) == IF ls = <<>> THEN 0
+                    ELSE (IF Head(ls).c \in {"AE", "IE"} THEN Size(Head(ls).n, L) + 1
+                          ELSE IF Head(ls).c = "A" THEN Size(Head(ls).n, L) ELSE Size(Head(ls).n, L) * Size(Head(ls).s, L))
+                         + ValueNest(Tail(ls), L)
+\* "documents nested below the limit in each single construct are still accepted": the header path, the key path
+\* and the value are three constructs; each of them nests fewer than L levels (a chain of [[headers]] nests two per key)
+MustAcceptAt(p, L) == /\ p.hk # "stairs" /\ HS(p, L) < L /\ (p.hs # "0" => Size(p.hs, L) < L) /\ Size(p.ks, L) < L /\ ValueNest(p.layers, L) < L
+                      /\ \A i \in 1..Len(p.layers) : Size(p.layers[i].s, L) < L
+\* (the symbolic version used when patterns are emitted: sizes below the limit by name, one construct at a time)
+MustAccept(p) == /\ p.hk # "stairs" /\ Single(p) /\ Below(p.hs) /\ Below(p.ks) /\ (p.hk = "chain" => p.hs \in {"1", "H"})
                  /\ \A i \in 1..Len(p.layers) : Below(p.layers[i].n) /\ Below(p.layers[i].s)
 
 =============================================================================
